@@ -302,7 +302,11 @@ class Parser:
             if self.peek() == ("op", "(") and not (len(path) == 1 and path[0] == "self"):
                 self.next(); args = []
                 while not self.accept(")"):
-                    args.append(self.expr()); self.accept(",")
+                    a_ = self.expr()
+                    if self.peek()[1] in ("..", "..="):                   # a range as an argument: Uniform::from(lo..=hi)
+                        incl = self.next()[1] == "..="
+                        a_ = ("range", a_, self.expr(), incl)
+                    args.append(a_); self.accept(",")
                 return ("fncall", "::".join(path), args)
             if self.peek() == ("op", "{") and self.nostruct == 0 and path[-1][:1].isupper():
                 self.next(); fields = []
@@ -373,6 +377,8 @@ class Gen:
         self.identity_calls = set()     # wrappers that do not change the bytes (X::from_le_bytes, .as_le_bytes(), ...)
         self.big = None                 # big-integer mode: dict(be=, into=, gen_params=set(), prime_params=set()) or None
         self.loop_depth = 0             # >0 while translating a `for` body: `return e` leaves the loop with (inl e)
+        self.mut_arrays = set()         # `&mut [u8]` parameters of a free function: `for b in buf` writes through to them
+        self.tape_stmt_calls = {}       # f(&mut arr); filling the array from the tape: name -> translated fn (arr, tape) -> option (arr, tape)
         self.poisoned = {}              # variable -> why it may no longer be used (a mutable alias of it lives under another name)
         self.tape_calls = {}            # calls that draw from the explicit tape: name -> (translated fn taking the tape last, result type)
         self.cipher_calls = {}          # free fn f(data, key, &mut a, &mut b): name -> translated per-byte step (folded over data)
@@ -596,6 +602,22 @@ class Gen:
                 v_ = self.fresh("f")
                 return "match %s with None => None | Some %s =>\n  %s end" % (a, v_, k(v_, ta[1]))
             return self.expr(e[1], kuw)
+        if kind == "fncall" and e[1] in ("String::with_capacity", "String::new") and len(e[2]) <= 1:
+            return k("(@nil N)", "str")
+        if kind == "call" and e[2] == "to_string" and not e[3]:
+            def kts(a, ta):
+                if ta != "u8": raise Untranslatable(".to_string() of %s" % (ta,))
+                return k("(u8_to_string %s)" % a, "str")          # decimal, no padding (core::fmt for u8)
+            return self.expr(e[1], kts)
+        if kind == "call" and e[2] == "chunks" and len(e[3]) == 1:
+            def kch(a, ta):
+                if not (isinstance(ta, tuple) and ta[0] == "arr"): raise Untranslatable(".chunks() of %s" % (ta,))
+                return self.expr(e[3][0], lambda n_, tn: "if %s =? 0 then None else\n  %s" % (n_, k("(%s, %s)" % (a, n_), "chunks")), "usize")   # chunks(0) panics
+            return self.expr(e[1], kch)
+        if kind == "call" and e[2] == "next" and not e[3] and self.lhs_key(e[1]) in self.env and self.env[self.lhs_key(e[1])][1] == "chunks":
+            g_, _ = self.env[self.lhs_key(e[1])]
+            old = self.fresh("c")
+            return "let %s := %s in\n  let %s := chunks_advance %s in\n  %s" % (old, g_, g_, old, k("(chunks_head %s)" % old, ("opt", ("arr", "u8"))))
         # ---- HMAC-SHA1 objects (hmac crate): a value (key, message so far) ----
         if kind == "fncall" and e[1] in ("Hmac::new_from_slice", "Hmac::new_from_slice::<Sha1>", "Hmac::<Sha1>::new_from_slice") and len(e[2]) == 1:
             def khn(a, ta):
@@ -634,6 +656,13 @@ class Gen:
                 v_ = self.fresh("x"); e_ = self.fresh("e")
                 return "match %s with inl %s =>\n  %s | inr %s => %s end" % (a, v_, k(v_, ta[1]), e_, (self.fn_final)(("(inr %s)" % e_, "result")))
             return self.expr(e[1], ktry)
+        if (kind == "call" and e[2] == "sample" and len(e[3]) == 1 and e[1][0] == "id" and e[1][1] in self.env
+                and self.env[e[1][1]][1] == "uniform_u8" and self.tape is not None):
+            # rand's UniformInt<u8>::sample (modelled dependency, model/Random.v): rejection sampling on u32 words of the tape
+            lh = self.env[e[1][1]][0]
+            v_ = self.fresh("d")
+            return ("match (let '(lo_, hi_) := %s in uniform_sample (S (length %s)) lo_ (uniform_range lo_ hi_) (uniform_reject (uniform_range lo_ hi_)) %s) with None => None | Some (%s, %s) =>\n  %s end"
+                    % (lh, self.tape, self.tape, v_, self.tape, k(v_, "u8")))
         if kind == "fncall" and e[1] in self.tape_calls and self.tape is not None:
             g_, rty = self.tape_calls[e[1]]
             args = e[2]
@@ -745,6 +774,8 @@ class Gen:
                         self.unify(ta, tb, op)
                         term = {"==": "(%s =? %s)", "!=": "(negb (%s =? %s))", "<": "(%s <? %s)", ">": "(%s <? %s)", "<=": "(%s <=? %s)", ">=": "(%s <=? %s)"}[op]
                         return k(term % ((b, a) if op in (">", ">=") else (a, b)), "bool")
+                    if op == "+" and ta == "str" and tb == "str":          # String += &str
+                        return k("(%s ++ %s)" % (a, b), "str")
                     if ta == "big" or tb == "big":
                         if ta != tb: raise Untranslatable("mixed big-integer arithmetic")
                         if op in ("+", "-", "*"): return k("(%s %s %s)%%Z" % (a, op, b), "big")
@@ -1061,7 +1092,7 @@ class Gen:
         if s[0] == "for" and len(s[1]) == 1:
             base_ = s[2]
             while base_[0] in ("deref", "paren"): base_ = base_[1]
-            if base_[0] == "id" and base_[1] in self.env and isinstance(self.env[base_[1]][1], tuple) and self.env[base_[1]][1][0] == "arr" and s[2][0] == "deref":
+            if base_[0] == "id" and base_[1] in self.env and isinstance(self.env[base_[1]][1], tuple) and self.env[base_[1]][1][0] == "arr" and (s[2][0] == "deref" or (s[2] == base_ and base_[1] in self.mut_arrays)):
                 xv = s[1][0]; iv = "%s__idx" % xv
                 def subst2(n):
                     if isinstance(n, tuple):
@@ -1112,6 +1143,8 @@ class Gen:
                         key = self.lhs_key(x[1][1])
                         if key in self.env and key not in assigned: assigned.append(key)
             walkf(body)
+            if self.tape is not None and "'sample'" in repr(body):
+                self.env["__tape"] = (self.tape, "tape"); assigned.append("__tape")
             order = [k_ for k_ in self.env if k_ in assigned]
             def tup():
                 if not order: return "tt"                 # a loop that only searches (early return): no carried state
@@ -1184,6 +1217,25 @@ class Gen:
                 self.env[name] = (g, ("iter", tuple(ts)))
                 return "let %s := %s in\n  %s" % (g, l, self.stmts(rest, final))
             return self.iter_list(s[3], kit)
+        if s[0] == "let" and s[3] == ("fncall", "thread_rng", []):
+            self.env[s[1]] = ("tt", "rng")                      # the thread RNG handle: the explicit tape stands for it
+            return self.stmts(rest, final)
+        if s[0] == "let" and s[3][0] == "fncall" and s[3][1] == "Uniform::from" and len(s[3][2]) == 1 and s[3][2][0][0] in ("range", "paren"):
+            rg = s[3][2][0]
+            while rg[0] == "paren": rg = rg[1]
+            if rg[0] != "range" or not rg[3]: raise Untranslatable("Uniform::from of something other than an inclusive range")
+            def klo_(lo, tl):
+                def khi_(hi, th):
+                    if tl != "u8" or th != "u8": raise Untranslatable("Uniform over %s" % (tl,))
+                    self.env[s[1]] = ("(%s, %s)" % (lo, hi), "uniform_u8")
+                    return self.stmts(rest, final)
+                return self.expr(rg[2], khi_)
+            return self.expr(rg[1], klo_)
+        if s[0] == "expr_stmt" and s[1][0] == "fncall" and s[1][1] in self.tape_stmt_calls and len(s[1][2]) == 1 and self.tape is not None:
+            akey = self.lhs_key(s[1][2][0])
+            if akey is None or akey not in self.env: raise Untranslatable("argument of %s" % s[1][1])
+            ag, _ = self.env[akey]
+            return "match %s %s %s with None => None | Some (%s, %s) =>\n  %s end" % (self.tape_stmt_calls[s[1][1]], ag, self.tape, ag, self.tape, self.stmts(rest, final))
         if s[0] == "let":
             name, ty, e = s[1], s[2], s[3]
             e_ = e
